@@ -145,7 +145,7 @@ def field_table(case):
         has_default = "default" in f
         r = {"att": f["att"], "name": name, "aliases": aliases, "type": f["type"],
              "required": bool(f.get("required")) and not has_default,
-             "immutable": bool(f.get("immutable")), "no_output": bool(f.get("no_output")), "prop": False,
+             "immutable": bool(f.get("immutable")) or bool(f.get("final")), "no_output": bool(f.get("no_output")), "prop": False,
              "deps": [], "dependants": [], "defer": bool(f.get("defer")) and has_default,
              "default": f.get("default") if has_default else None, "has_default": has_default}
         out.append(r)
@@ -202,7 +202,11 @@ def build_class(case):
     if okw:
         ns["__options__"] = Options(**okw)
     for f in case["fields"]:
-        ns["__annotations__"][f["att"]] = py_type(f["type"])
+        if f.get("final"):
+            from typing import Final
+            ns["__annotations__"][f["att"]] = Final[py_type(f["type"])]
+        else:
+            ns["__annotations__"][f["att"]] = py_type(f["type"])
         kw = {}
         if f.get("alias"):
             kw["alias"] = f["alias"]
@@ -564,6 +568,8 @@ def gen_class(rng, base=None):
             f["alias_from"] = [att + "$"] + ([att + "#"] if rng.random() < 0.3 else [])
         if rng.random() < 0.15:
             f["immutable"] = True
+        elif rng.random() < 0.1:
+            f["final"] = True            # Final[T]: immutable through ParserField.immutable (field.py:520-524)
         if rng.random() < 0.18:
             f["no_output"] = True
         fields.append(f)
@@ -743,7 +749,7 @@ class C07(Check):
     driver = "C07"
     impl = "harness.c07:impl"
     rule = ("random data classes (2-5 fields drawn from required/default/deferred-default/optional x aliased x alias_from x "
-            "immutable x no_output over 4 field types, 0-2 getter properties with declared dependencies, options immutable/"
+            "immutable/Final x no_output over 4 field types, 0-2 getter properties with declared dependencies, options immutable/"
             "ignore_required/ignore_delete_nonexistent/addition in {ignore,allow,forbid,int}; Schema 82% / DataClass 18%) "
             "x operation sequences (<=12 quick, <=40 thorough) over setattr/setitem/delattr/delitem/update/pop/popitem/"
             "setdefault/clear/|=/copy on up to 3 live instances, arguments valid/convertible/invalid 50/25/25 for the "
